@@ -234,3 +234,43 @@ Fixpoint blocking_scan (h : list aev) (acked : list (nat * nat)) (* (sub, public
     the scan above registers a subscription at its call, so histories are pre-filtered by the
     driver to put ASubCall at the position of the matching ASubRet *)
 Definition mon_blocking (h : list aev) : list (nat * nat) := blocking_scan h [] [] [] [] false [] 0.
+
+(** ** C05 blocking mode: every already-existing subscription receives one publisher's messages
+    in the order they were published.  [owner] maps a publication to its publisher; the
+    publication numbers of one publisher increase in publish order (harness convention).  Only
+    deliveries to subscriptions whose Subscribe had returned when the Publish was called count
+    (a persistent replay to a later subscription promises no order), and only until the first
+    Close signal (after it the waits are skipped). *)
+Fixpoint top_get (l : list (nat * nat * nat)) (x q : nat) : option nat :=
+  match l with
+  | [] => None
+  | (x', q', v) :: l' => if Nat.eqb x x' && Nat.eqb q q' then Some v else top_get l' x q
+  end.
+Fixpoint order_scan (owner : list (nat * nat)) (h : list aev) (subs : list nat)
+         (elig : list (nat * nat)) (* (publication, subscription existing at its Publish call) *)
+         (top : list (nat * nat * nat)) (* (sub, publisher, highest publication received) *)
+         (i : nat) : list (nat * nat) :=
+  match h with
+  | [] => []
+  | e :: h' =>
+      match e with
+      | ACloseCall | ADriverClose => []
+      | ASubCall x _ => order_scan owner h' (x :: subs) elig top (S i)
+      | APubCall _ _ ms => order_scan owner h' subs (flat_map (fun p => map (fun x => (p, x)) subs) ms ++ elig) top (S i)
+      | ARecv x p _ _ _ _ =>
+          if existsb (fun q => Nat.eqb (fst q) p && Nat.eqb (snd q) x) elig then
+            match assoc owner p with
+            | None => order_scan owner h' subs elig top (S i)
+            | Some q =>
+                match top_get top x q with
+                | Some v => if Nat.ltb p v then (i, V_BLOCKING_ORDER) :: order_scan owner h' subs elig top (S i)
+                            else order_scan owner h' subs elig ((x, q, p) :: top) (S i)
+                | None => order_scan owner h' subs elig ((x, q, p) :: top) (S i)
+                end
+            end
+          else order_scan owner h' subs elig top (S i)
+      | _ => order_scan owner h' subs elig top (S i)
+      end
+  end.
+Definition mon_blocking_order (owner : list (nat * nat)) (h : list aev) : list (nat * nat) :=
+  order_scan owner h [] [] [] 0.
